@@ -196,6 +196,30 @@ def fam_many_rets():
     return out
 
 
+def fam_compound_xnor():
+    """or of two ands whose members are compound terms / literals in complementary pairs"""
+    X = ["a", "b", ["or", "a", "c"], ["xor", "c", "d"], ["and", "b", "d"], ["not", ["or", "b", "c"]]]
+    out = []
+    for x in X:
+        for y in X:
+            if x is y:
+                continue
+            nx, ny = ["not", x], ["not", y]
+            out.append(["or", ["and", x, ny], ["and", nx, y]])
+            out.append(["or", ["and", x, y], ["and", nx, ny]])
+            out.append(["or", ["and", nx, y], ["and", x, ny]])
+            out.append(["or", ["and", y, x], ["and", nx, ny]])
+    return out
+
+
+BIG_INTERMEDIATE = [
+    "def prog(a: Qint[16], b: Qint[16], c: bool) -> Tuple[bool, bool]:\n    lt = a < b\n    return (lt and c, lt or c)\n",
+    "def prog(a: Qint[16], b: Qint[16], c: bool) -> bool:\n    t = c and a[0]\n    c = a < b\n    return t != c\n",
+    "def prog(a: Qint[12], b: Qint[12], c: bool) -> Tuple[bool, bool, bool]:\n    g = a > b\n    e = a == b\n    return (g and c, e or c, g != e)\n",
+    "def prog(a: Qint[8], b: Qint[8], c: bool) -> Tuple[bool, bool]:\n    lt = a < b\n    return (lt and c, lt or c)\n",
+]
+
+
 INTERLEAVED = [
     [["t", ["and", "a", "b"]], ["_ret.0", ["xor", "t", "c"]], ["t", ["or", "a", "b"]], ["_ret.1", ["and", "t", "c"]]],
     [["_ret.0", ["and", "a", "b"]], ["a", ["xor", "a", "c"]], ["_ret.1", ["or", "a", "b"]]],
@@ -212,6 +236,10 @@ def make_items(tier, seed):
         core.append({"kind": "synth", "fam": "many-rets", "list": lst})
     for lst in INTERLEAVED:
         core.append({"kind": "synth", "fam": "interleaved", "list": lst})
+    for t in fam_compound_xnor():
+        core.append({"kind": "synth", "fam": "compound-xnor", "list": [["_ret", t]]})
+    for src in BIG_INTERMEDIATE:
+        core.append({"kind": "prog", "fam": "big-intermediate", "src": src})
     core.append({"kind": "prog", "fam": "many-rets", "src": "def prog(a: Qint[4], b: Qint[4], c: Qint[4]) -> Tuple[Qint[4], Qint[4], Qint[4], Qint[4], Qint[4]]:\n    return (a + b, b + c, a + c, a + b + c, (a + b) ^ c)\n"})
     ooa = fam_or_of_ands()
     d2 = fam_depth2()
@@ -243,7 +271,7 @@ def make_items(tier, seed):
             allx.append(sp)
     if tier == "thorough":
         return allx
-    return slice_quick(allx, seed, len(core), 500)
+    return slice_quick(allx, seed, len(core), 1200)
 
 
 _REC = None
